@@ -40,7 +40,7 @@ Good(ev) == StepOf(ev.p, ev.l) /\ Matches(ev.st) /\ Outcome(ev)
 
 ResetState ==
   /\ next' = [n \in Nodes |-> Nil] /\ headN' = S0 /\ tailN' = S0 /\ closed' = FALSE /\ doneCh' = FALSE
-  /\ sigB' = 0 /\ waiting' = FALSE /\ delivered' = <<>>
+  /\ sigB' = 0 /\ waiting' = FALSE /\ delivered' = <<>> /\ okSent' = {}
   /\ k' = [self \in Producers |-> 0] /\ cur' = [self \in Producers |-> Nil] /\ sent' = [self \in Producers |-> FALSE]
   /\ got' = 0 /\ nn' = Nil /\ val' = Nil /\ ok' = FALSE
   /\ old' = [self \in Closers |-> Nil]
@@ -58,7 +58,7 @@ AllDone == \A p \in ProcSet : pc[p] = "Done"
 TrEnd ==
   /\ l <= Len(Trace) /\ Ev1.e = "RunEnd" /\ l' = l + 1 /\ UNCHANGED vars /\ mode' = mode
   /\ IF mode = "skip" THEN UNCHANGED <<bad, counts, judged>>
-     ELSE IF Ev1.finished THEN Note(IF AllDone /\ PerProducerFifo THEN "OK_RUN" ELSE "BAD_END_MISMATCH", "")
+     ELSE IF Ev1.finished THEN Note(IF AllDone /\ PerProducerFifo /\ NoLoss THEN "OK_RUN" ELSE "BAD_END_MISMATCH", "")
      ELSE IF Stuck THEN Note("BAD_LOST_WAKEUP", "")
      ELSE Note("BAD_DEADLOCK", ToString(pc))
 
